@@ -950,10 +950,8 @@ class Molecules:
                 shift_corrected
             )
         else:
-            shift_corrected = rotator.apply(shift)
-            return self.translate_internal(shift_corrected).rotate_by_rotvec_internal(
-                rotvec
-            )
+            # ``shift`` is given in the current (not yet rotated) molecule frame
+            return self.translate_internal(shift).rotate_by_rotvec_internal(rotvec)
 
     def concat_with(
         self,
